@@ -235,6 +235,15 @@ def Chunk.ofVal (H : List Nat → List Nat) : Val → Option Chunk
   | .bin s => some { address := if chunkDeUsesNew && chunkNewHashesValue then H s else [], value := s }
   | _ => none
 
+/-- `try_deserialize_record::<(ProofOfPayment, Chunk)>` on the decoded value: the pair as a 2-array, the proof read
+by `readProof` (its schema, below), the chunk by `Deserialize for Chunk` -/
+def paidChunkOfVal (readProof : Val → Option Tree) (H : List Nat → List Nat) : Val → Option (Tree × Chunk)
+  | .arr [pv, cv] =>
+    match readProof pv, Chunk.ofVal H cv with
+    | some p, some c => some (p, c)
+    | _, _ => none
+  | _ => none
+
 /-! ## schemas of the repo's types -/
 
 def nm (s : String) : List Nat := s.toList.map Char.toNat
